@@ -257,6 +257,10 @@ Program gen_program(uint64_t seed, const GenParams &gp, const std::string &profi
                 }
             }
             if (!finish) return;
+            if (first && gp.close_pending && !f.vars.empty() && rng.chance(0.06)) {   // a nonblocking request posted while the new file is still in its first define mode, then abort: the request must be cancelled (NC_EPENDING) and the file removed
+                Op o; o.file = fi; o.var = (int)rng.below(f.vars.size()); o.kind = OP_IPUT; gen_partitioned(rng, f.vars[o.var], 0, np, false, gp, o.acc); for (auto &a : o.acc) if (a.form == F_VARD) { a.form = F_VARS; a.flexible = false; }
+                if (emit(o)) { Op ab; ab.kind = OP_ABORT; ab.file = fi; ab.a[0] = 1; if (emit(ab)) return; }
+            }
             Op e; e.file = fi;
             if (gp.align_args && rng.chance(0.5)) { e.kind = OP_ENDDEF2; e.a[0] = rng.chance(0.5) ? 0 : rng.range(0, 300); e.a[1] = rng.chance(0.5) ? 1 << rng.range(2, 9) : rng.range(1, 40) * 4; e.a[2] = rng.chance(0.5) ? 0 : rng.range(0, 100); e.a[3] = rng.chance(0.5) ? 1 << rng.range(2, 9) : rng.range(1, 40) * 4; }
             else e.kind = OP_ENDDEF;
